@@ -216,7 +216,10 @@ def r153(ctx):
                 if isinstance(s, ast.Assign) and isinstance(s.targets[0], ast.Name) and s.targets[0].id == flag:
                     init_true = isinstance(s.value, ast.Constant) and s.value.value is True
             other_sets = [s for s in ast.walk(L) if isinstance(s, ast.Assign) and isinstance(s.targets[0], ast.Name) and s.targets[0].id == flag and not (isinstance(s.value, ast.Constant) and s.value.value is False)]
-            first_stmt = L.body[0] is gi
+            # the skip is decided before the frame is appended: nothing but observability precedes it
+            from ..cfg import _is_logging_stmt
+            before = L.body[: L.body.index(gi)]
+            first_stmt = all(_is_logging_stmt(s_) or (isinstance(s_, ast.Expr) and isinstance(s_.value, ast.Constant)) for s_ in before)
             if sets_false and init_true and not other_sets and first_stmt:
                 ctx.ok(rid, gi, f"exactly the first forward frame is skipped, and only when `{ov}` (flag `{flag}`: True before the loop, cleared in the skipping branch, never set again)")
             else:
